@@ -46,14 +46,15 @@ def main():
     files = sorted(f for pat in pats for f in glob.glob(pat))
     with mp.get_context('fork').Pool(j) as pool:
         res = pool.map(work, files, chunksize=1)
-    fa = fc = 0
+    fa = fc = na = 0
     for pf, status, lines in res:
         fa += status == 'FALSE-ALARM'
         fc += status == 'fail-closed'
+        na += status in ('patch-fails', 'load-error')
         print(f'{pf}: {status}')
         for l in lines:
             print(l)
-    print(f'{len(res)} refactorings: {fa} with false alarms, {fc} fail-closed (ANALYSIS-ERROR only), {len(res) - fa - fc} silent')
+    print(f'{len(res)} refactorings: {fa} with false alarms, {fc} fail-closed (ANALYSIS-ERROR only), {na} not applicable, {len(res) - fa - fc - na} silent')
 
 
 if __name__ == '__main__':
